@@ -988,6 +988,245 @@ fn cmd_c19(n: usize) -> (u64, Vec<String>) {
     (cases, bad)
 }
 
+// ------------------------------------------------------------------------------------------------ executed and captured as is (C13)
+/// BOUNDED: real bash processes. For every stdout payload x stderr payload x exit code x keep_crlf, through SubprocessRunner (one shell
+/// per command) and through StatefulExecutor + BashRunner (the Markdown execution path): the command reaches the shell verbatim (quotes,
+/// backslashes, `$`, globs are printed back), stdout and stderr are recorded on their own streams byte for byte -- except every CR LF
+/// becomes LF unless keep_crlf --, the exit code is the command's; ANSI is removed only when asked; output written before a timeout is kept
+fn cmd_c13(n: usize) -> (u64, Vec<String>) {
+    use scrut::executors::bash_runner::BashRunner;
+    use scrut::executors::context::Context;
+    use scrut::executors::executor::Executor;
+    use scrut::executors::runner::Runner;
+    use scrut::executors::stateful_executor::StatefulExecutor;
+    use scrut::executors::subprocess_runner::SubprocessRunner;
+    let work = tempfile::tempdir().expect("work dir");
+    let temp = tempfile::tempdir().expect("temp dir");
+    let context = Context { work_directory: work.path().to_path_buf(), temp_directory: temp.path().to_path_buf(), file: std::path::PathBuf::from("doc.md"), config: DocumentConfig::default() };
+    let bash = std::path::PathBuf::from("/bin/bash");
+    let payloads: Vec<Vec<u8>> = vec![b"".to_vec(), b"a\n".to_vec(), b"a".to_vec(), b"a\r\nb\r\n".to_vec(), b"x\ry\r\n\rz\r".to_vec(), b"\r\n".to_vec(), b"\r\r\n".to_vec(), b"tab\there\n".to_vec(),
+        b"\x1b[1mbold\x1b[0m\n".to_vec(), b"\xff\xfe\n".to_vec(), b"nul\x01\x7f\n".to_vec(), "\u{e9}\u{1f600}\n".as_bytes().to_vec(), b"  lead and trail  \n".to_vec(), b"\n\n\n".to_vec(), b"last\r".to_vec()];
+    let payloads: Vec<Vec<u8>> = payloads.into_iter().take(5 + 4 * n).collect();
+    let octal = |b: &[u8]| -> String { b.iter().map(|x| format!("\\{:03o}", x)).collect() };
+    let drop_cr = |b: &[u8]| -> Vec<u8> { let mut v = vec![]; for i in 0..b.len() { if b[i] == 13 && i + 1 < b.len() && b[i + 1] == 10 { continue; } v.push(b[i]); } v };
+    let mut cases = 0u64;
+    let mut bad: Vec<String> = vec![];
+    let mut report = |class: &str, why: String, cmd: &str, bad: &mut Vec<String>| { if bad.len() < 8 { bad.push(format!("{{\"class\":{},\"why\":{},\"command\":{}}}", jstr(class), jstr(&format!("C13: {why}")), jstr(cmd))); } };
+    for (io, out) in payloads.iter().enumerate() {
+        for err in [&payloads[(io + 3) % payloads.len()], &payloads[0]] {
+            for code in [0i32, 7] {
+                for keep in [None, Some(true)] {
+                    let cmd = format!("printf '{}'; printf '{}' 1>&2; exit {code}", octal(out), octal(err));
+                    let config = TestCaseConfig { keep_crlf: keep, ..TestCaseConfig::empty() };
+                    let tc = TestCase { title: "t".into(), shell_expression: cmd.clone(), expectations: vec![], exit_code: None, line_number: 1, config };
+                    let (wo, we) = if keep == Some(true) { (out.clone(), err.clone()) } else { (drop_cr(out), drop_cr(err)) };
+                    // one shell per command
+                    cases += 1;
+                    match SubprocessRunner::new(bash.clone()).run("t", &tc, &context) {
+                        Err(e) => report("runner-error", format!("SubprocessRunner fails: {e}"), &cmd, &mut bad),
+                        Ok(o) => {
+                            if o.stdout.to_bytes() != wo { report("stdout", format!("stdout recorded as {:?}, written {:?} (keep_crlf {keep:?})", String::from_utf8_lossy(&o.stdout.to_bytes()), String::from_utf8_lossy(out)), &cmd, &mut bad); }
+                            if o.stderr.to_bytes() != we { report("stderr", format!("stderr recorded as {:?}, written {:?} (keep_crlf {keep:?})", String::from_utf8_lossy(&o.stderr.to_bytes()), String::from_utf8_lossy(err)), &cmd, &mut bad); }
+                            if o.exit_code != ExitStatus::Code(code) { report("exit-code", format!("exit status {:?}, command exits {code}", o.exit_code), &cmd, &mut bad); }
+                        }
+                    }
+                    // the Markdown execution path: stateful executor over bash runners (state carried in a directory)
+                    if code == 0 || io % 3 == 0 {
+                        cases += 1;
+                        let ex = StatefulExecutor::new(Box::new(|state: &std::path::Path| Box::new(BashRunner::new(&std::path::PathBuf::from("/bin/bash"), state)) as Box<dyn Runner>));
+                        match ex.execute_all(&[&tc], &context) {
+                            Err(e) => report("executor-error", format!("StatefulExecutor fails: {e}"), &cmd, &mut bad),
+                            Ok(os) => {
+                                if os.len() != 1 { report("executor-error", format!("{} outputs for one test case", os.len()), &cmd, &mut bad); continue; }
+                                if os[0].stdout.to_bytes() != wo { report("stdout", format!("(bash runner) stdout recorded as {:?}, written {:?} (keep_crlf {keep:?})", String::from_utf8_lossy(&os[0].stdout.to_bytes()), String::from_utf8_lossy(out)), &cmd, &mut bad); }
+                                if os[0].stderr.to_bytes() != we { report("stderr", format!("(bash runner) stderr recorded as {:?}, written {:?}", String::from_utf8_lossy(&os[0].stderr.to_bytes()), String::from_utf8_lossy(err)), &cmd, &mut bad); }
+                                if os[0].exit_code != ExitStatus::Code(code) { report("exit-code", format!("(bash runner) exit status {:?}, command exits {code}", os[0].exit_code), &cmd, &mut bad); }
+                            }
+                        }
+                    }
+                }
+            }
+        }
+    }
+    // the single-script (Cram) executor: all payload commands in ONE script, each test case gets back exactly its own output
+    {
+        use scrut::executors::bash_script_executor::BashScriptExecutor;
+        for (stream, redirect) in [("stdout", ""), ("stderr", " 1>&2")] {
+            let tcs: Vec<TestCase> = payloads.iter().enumerate().map(|(i, p)| TestCase { title: "t".into(), shell_expression: format!("printf '{}'{redirect}; (exit {})", octal(p), i % 3),
+                expectations: vec![], exit_code: None, line_number: i + 1, config: TestCaseConfig { keep_crlf: Some(true), ..TestCaseConfig::empty() } }).collect();
+            let refs: Vec<&TestCase> = tcs.iter().collect();
+            cases += tcs.len() as u64;
+            match BashScriptExecutor::new(&bash).execute_all(&refs, &context) {
+                Err(e) => report("executor-error", format!("BashScriptExecutor fails: {e}"), "(script of all payload commands)", &mut bad),
+                Ok(os) => {
+                    if os.len() != tcs.len() { report("executor-error", format!("{} outputs for {} test cases", os.len(), tcs.len()), "(script)", &mut bad); }
+                    for (i, (o, p)) in os.iter().zip(payloads.iter()).enumerate() {
+                        let got = if stream == "stdout" { o.stdout.to_bytes() } else { o.stderr.to_bytes() };
+                        if &got != p { report("script-output", format!("single-script executor: {stream} of test case {} recorded as {:?}, written {:?}", i + 1, String::from_utf8_lossy(&got), String::from_utf8_lossy(p)), &tcs[i].shell_expression, &mut bad); }
+                        if o.exit_code != ExitStatus::Code((i % 3) as i32) { report("exit-code", format!("single-script executor: exit status {:?} for test case {}, command exits {}", o.exit_code, i + 1, i % 3), &tcs[i].shell_expression, &mut bad); }
+                    }
+                }
+            }
+        }
+    }
+    // state carried between test cases does not leak into the recorded output of later ones
+    {
+        cases += 1;
+        let cmds = ["pushd / >/dev/null; pushd /tmp >/dev/null; export FOO=bar; alias ll=ls; shopt -s nullglob", "printf 'x'", "printf '%s' \"$FOO\"; dirs -p | wc -l | tr -d ' \\n'"];
+        let tcs: Vec<TestCase> = cmds.iter().enumerate().map(|(i, c)| TestCase { title: "t".into(), shell_expression: c.to_string(), expectations: vec![], exit_code: None, line_number: i + 1, config: TestCaseConfig::empty() }).collect();
+        let refs: Vec<&TestCase> = tcs.iter().collect();
+        let ex = StatefulExecutor::new(Box::new(|state: &std::path::Path| Box::new(BashRunner::new(&std::path::PathBuf::from("/bin/bash"), state)) as Box<dyn Runner>));
+        match ex.execute_all(&refs, &context) {
+            Ok(os) if os.len() == 3 && os[0].stdout.to_bytes().is_empty() && os[1].stdout.to_bytes() == b"x".to_vec() && os[1].stderr.to_bytes().is_empty() && os[2].stdout.to_bytes() == b"bar3".to_vec() => {}
+            Ok(os) => report("state-leak", format!("outputs of a 3-step sequence: {:?}", os.iter().map(|o| (String::from_utf8_lossy(&o.stdout.to_bytes()).to_string(), String::from_utf8_lossy(&o.stderr.to_bytes()).to_string())).collect::<Vec<_>>()), cmds[0], &mut bad),
+            Err(e) => report("executor-error", format!("StatefulExecutor fails: {e}"), cmds[0], &mut bad),
+        }
+    }
+    // the command reaches the shell verbatim
+    for text in ["it's", "a \"quoted\" word", "back\\slash \\n", "$HOME is not expanded in single quotes", "star * and ? and [a-z]", "semi; colon && and || pipe |", "{state_directory} {work_directory}", "trailing space  ", "%s %d"] {
+        cases += 1;
+        let quoted = format!("'{}'", text.replace('\'', "'\\''"));
+        let cmd = format!("printf '%s\\n' {quoted}");
+        let tc = TestCase { title: "t".into(), shell_expression: cmd.clone(), expectations: vec![], exit_code: None, line_number: 1, config: TestCaseConfig::empty() };
+        let ex = StatefulExecutor::new(Box::new(|state: &std::path::Path| Box::new(BashRunner::new(&std::path::PathBuf::from("/bin/bash"), state)) as Box<dyn Runner>));
+        match ex.execute_all(&[&tc], &context) {
+            Ok(os) if os.len() == 1 && os[0].stdout.to_bytes() == format!("{text}\n").into_bytes() => {}
+            Ok(os) => report("verbatim", format!("the shell printed {:?} for the text {text:?}", os.first().map(|o| String::from_utf8_lossy(&o.stdout.to_bytes()).to_string())), &cmd, &mut bad),
+            Err(e) => report("executor-error", format!("StatefulExecutor fails: {e}"), &cmd, &mut bad),
+        }
+    }
+    // ANSI only when asked; partial output before a timeout keeps stream and transformations
+    {
+        cases += 2;
+        let cmd = "printf '\\033[1mB\\033[0m\\r\\n'";
+        for strip in [None, Some(true)] {
+            let tc = TestCase { title: "t".into(), shell_expression: cmd.into(), expectations: vec![], exit_code: None, line_number: 1, config: TestCaseConfig { strip_ansi_escaping: strip, ..TestCaseConfig::empty() } };
+            let want: Vec<u8> = if strip == Some(true) { b"B\n".to_vec() } else { b"\x1b[1mB\x1b[0m\n".to_vec() };
+            match SubprocessRunner::new(bash.clone()).run("t", &tc, &context) {
+                Ok(o) if o.stdout.to_bytes() == want => {}
+                Ok(o) => report("ansi", format!("strip_ansi_escaping {strip:?}: recorded {:?}", String::from_utf8_lossy(&o.stdout.to_bytes())), cmd, &mut bad),
+                Err(e) => report("runner-error", format!("{e}"), cmd, &mut bad),
+            }
+        }
+        cases += 1;
+        let cmd = "printf 'ONE\\r\\n'; printf 'TWO\\r\\n' 1>&2; sleep 3; echo NEVER";
+        let t = std::time::Duration::from_millis(400);
+        let tc = TestCase { title: "t".into(), shell_expression: cmd.into(), expectations: vec![], exit_code: None, line_number: 1, config: TestCaseConfig { timeout: Some(t), ..TestCaseConfig::empty() } };
+        match SubprocessRunner::new(bash.clone()).run("t", &tc, &context) {
+            Ok(o) if o.exit_code == ExitStatus::Timeout(t) && o.stdout.to_bytes() == b"ONE\n".to_vec() && o.stderr.to_bytes() == b"TWO\n".to_vec() => {}
+            Ok(o) => report("timeout", format!("after a timeout: status {:?}, stdout {:?}, stderr {:?}", o.exit_code, String::from_utf8_lossy(&o.stdout.to_bytes()), String::from_utf8_lossy(&o.stderr.to_bytes())), cmd, &mut bad),
+            Err(e) => report("runner-error", format!("{e}"), cmd, &mut bad),
+        }
+    }
+    (cases, bad)
+}
+
+// ------------------------------------------------------------------------------------------------ which limit is in effect (C14)
+/// BOUNDED: real bash processes through StatefulExecutor + BashRunner: the smaller of the per-test-case timeout and what is left of
+/// the document timeout is the one that fires (and is reported as such), a document timeout of 0 means none, no timeout means none
+fn cmd_c14() -> (u64, Vec<String>) {
+    use scrut::executors::bash_runner::BashRunner;
+    use scrut::executors::context::Context;
+    use scrut::executors::error::{ExecutionError, ExecutionTimeout};
+    use scrut::executors::executor::Executor;
+    use scrut::executors::runner::Runner;
+    use scrut::executors::stateful_executor::StatefulExecutor;
+    use std::time::Duration;
+    let work = tempfile::tempdir().expect("work dir");
+    let temp = tempfile::tempdir().expect("temp dir");
+    let ms = Duration::from_millis;
+    // (per-test timeout, document timeout, command sleeps, expected)
+    let table: Vec<(Option<Duration>, Option<Duration>, &str, &str)> = vec![
+        (Some(ms(300)), Some(ms(5000)), "sleep 2", "index"),
+        (Some(ms(5000)), Some(ms(300)), "sleep 2", "total"),
+        (Some(ms(300)), None, "sleep 2", "index"),
+        (None, Some(ms(300)), "sleep 2", "total"),
+        (None, Some(ms(0)), "sleep 0.5", "none"),
+        (None, Some(ms(5000)), "sleep 0.3", "none"),
+        (Some(ms(5000)), Some(ms(5000)), "true", "none"),
+    ];
+    let mut bad = vec![];
+    let mut cases = 0u64;
+    for (tt, dt, cmd, want) in table {
+        cases += 1;
+        let context = Context { work_directory: work.path().to_path_buf(), temp_directory: temp.path().to_path_buf(), file: std::path::PathBuf::from("doc.md"),
+            config: DocumentConfig { total_timeout: dt, ..DocumentConfig::default() } };
+        let tc = TestCase { title: "t".into(), shell_expression: cmd.into(), expectations: vec![], exit_code: None, line_number: 1, config: TestCaseConfig { timeout: tt, ..TestCaseConfig::empty() } };
+        let ex = StatefulExecutor::new(Box::new(|state: &std::path::Path| Box::new(BashRunner::new(&std::path::PathBuf::from("/bin/bash"), state)) as Box<dyn Runner>));
+        let started = std::time::Instant::now();
+        let got = match ex.execute_all(&[&tc], &context) {
+            Ok(_) => "none".to_string(),
+            Err(ExecutionError::Timeout(ExecutionTimeout::Index(0), _)) => "index".to_string(),
+            Err(ExecutionError::Timeout(ExecutionTimeout::Total, _)) => "total".to_string(),
+            Err(e) => format!("error {e}"),
+        };
+        let took = started.elapsed();
+        if got != want {
+            bad.push(format!("{{\"why\":{},\"case\":{}}}", jstr(&format!("C14: test timeout {tt:?}, document timeout {dt:?}, `{cmd}`: outcome {got} after {took:?}, expected {want}")), jstr(cmd)));
+        }
+    }
+    (cases, bad)
+}
+
+// ------------------------------------------------------------------------------------------------ the skip code (C15)
+/// BOUNDED: real bash processes. Every sequence of up to `n` test cases with exit codes from {0, 1, 80, 81}, skip code unset (80) or
+/// configured 81, through StatefulExecutor + BashRunner and through BashScriptExecutor: the document is reported as skipped
+/// (ExecutionError::Skipped, index of the first test case that exits with its skip code) exactly when some test case exits with the skip
+/// code; otherwise every test case gets its own exit code back
+fn cmd_c15(n: usize) -> (u64, Vec<String>) {
+    use scrut::executors::bash_runner::BashRunner;
+    use scrut::executors::bash_script_executor::BashScriptExecutor;
+    use scrut::executors::context::Context;
+    use scrut::executors::error::ExecutionError;
+    use scrut::executors::executor::Executor;
+    use scrut::executors::runner::Runner;
+    use scrut::executors::stateful_executor::StatefulExecutor;
+    let work = tempfile::tempdir().expect("work dir");
+    let temp = tempfile::tempdir().expect("temp dir");
+    let context = Context { work_directory: work.path().to_path_buf(), temp_directory: temp.path().to_path_buf(), file: std::path::PathBuf::from("doc.md"), config: DocumentConfig::default() };
+    let codes = [0i32, 1, 80, 81];
+    let mut cases = 0u64;
+    let mut bad = vec![];
+    let mut seqs: Vec<Vec<i32>> = vec![vec![]];
+    let mut all: Vec<Vec<i32>> = vec![];
+    for _ in 0..n.max(1) {
+        seqs = seqs.iter().flat_map(|s| codes.iter().map(move |c| { let mut t = s.clone(); t.push(*c); t })).collect();
+        all.extend(seqs.iter().cloned());
+    }
+    for seq in &all {
+        for skip in [None, Some(81i32)] {
+            let skip_code = skip.unwrap_or(80);
+            let want: Result<Vec<i32>, usize> = match seq.iter().position(|c| *c == skip_code) { Some(i) => Err(i), None => Ok(seq.clone()) };
+            let tcs: Vec<TestCase> = seq.iter().enumerate().map(|(i, c)| TestCase { title: "t".into(), shell_expression: format!("echo out{i}; (exit {c})"), expectations: vec![], exit_code: None,
+                line_number: i + 1, config: TestCaseConfig { skip_document_code: skip, ..TestCaseConfig::empty() } }).collect();
+            let refs: Vec<&TestCase> = tcs.iter().collect();
+            for which in ["stateful", "script"] {
+                cases += 1;
+                let res = if which == "stateful" {
+                    StatefulExecutor::new(Box::new(|state: &std::path::Path| Box::new(BashRunner::new(&std::path::PathBuf::from("/bin/bash"), state)) as Box<dyn Runner>)).execute_all(&refs, &context)
+                } else {
+                    BashScriptExecutor::new(&std::path::PathBuf::from("/bin/bash")).execute_all(&refs, &context)
+                };
+                let got: Result<Vec<i32>, String> = match res {
+                    Ok(os) => Ok(os.iter().map(|o| match o.exit_code { ExitStatus::Code(c) => c, _ => -999 }).collect()),
+                    Err(ExecutionError::Skipped(i)) => Err(format!("skipped at {i}")),
+                    Err(e) => Err(format!("error {e}")),
+                };
+                let ok = match (&want, &got) {
+                    (Ok(w), Ok(g)) => w == g,
+                    // the single-script executor runs the whole script first: it reports the first test case with the skip code as well
+                    (Err(i), Err(g)) => g == &format!("skipped at {i}"),
+                    _ => false,
+                };
+                if !ok && bad.len() < 8 {
+                    bad.push(format!("{{\"why\":{},\"case\":{}}}", jstr(&format!("C15: {which} executor, exit codes {seq:?}, skip code {skip_code}: got {got:?}, expected {}", match &want { Ok(w) => format!("the exit codes {w:?}"), Err(i) => format!("skipped at {i}") })), jstr(&format!("{seq:?}"))));
+                }
+            }
+        }
+    }
+    (cases, bad)
+}
+
 fn cmd_cram_probe() -> (u64, Vec<String>) {
     use scrut::parsers::cram::CramParser;
     use scrut::parsers::parser::Parser;
@@ -1042,6 +1281,9 @@ fn main() {
         "markdown" => cmd_markdown(),
         "cram-probe" => cmd_cram_probe(),
         "c10-probe" => cmd_c10_probe(),
+        "c15" => cmd_c15(args.get(2).and_then(|s| s.parse().ok()).unwrap_or(2)),
+        "c14" => cmd_c14(),
+        "c13" => cmd_c13(args.get(2).and_then(|s| s.parse().ok()).unwrap_or(1)),
         "c19" => cmd_c19(args.get(2).and_then(|s| s.parse().ok()).unwrap_or(2)),
         "c09" => cmd_c09(args.get(2).and_then(|s| s.parse().ok()).unwrap_or(3)),
         "c10" => cmd_c10(args.get(2).and_then(|s| s.parse().ok()).unwrap_or(4)),
